@@ -288,12 +288,12 @@ Section WithH.
       destruct (unimplemented_is_badalg (digest _ k rd None rmac ctx multi)) as [c| |] eqn:D; cbn [bind] in E; try discriminate.
       apply (proj1 (unimplemented_ok _ _ _)) in D.
       destruct (ctx_verify H c (t_mac rd)) as [[]| |] eqn:V; cbn [bind] in E; try discriminate.
-      apply ctx_verify_iff in V. exists ad, c. auto.
+      apply ctx_verify_iff in V. apply (proj1 (unimplemented_ok _ _ _)) in E. exists ad, c. auto.
     - intros (ad & c & P & D & M & S).
       assert (P' : validate_pre wire k owner rd now start = Ok (strip_tsig wire ad start))
         by (apply validate_pre_iff; eauto).
       rewrite P'. cbn [bind]. rewrite D. cbn [bind unimplemented_is_badalg].
-      apply ctx_verify_iff in M. rewrite M. cbn [bind]. exact S.
+      apply ctx_verify_iff in M. rewrite M. cbn [bind]. apply unimplemented_ok. exact S.
   Qed.
 
   (* one-line failure lemmas, in the order of the checks *)
